@@ -466,6 +466,26 @@ func c09r2(c *an.Ctx) {
 			okOr = true
 		}
 	}
+	// the same written as `if fr.Control { pkt.Control = true }`: a store of true whose only condition is the frame's bit,
+	// tested on every iteration before the id switch
+	for _, st := range fieldStores(fn, pkControl) {
+		cst, isC := st.Val.(*ssa.Const)
+		if !isC || cst.Value == nil || cst.Value.String() != "true" {
+			continue
+		}
+		if ifI, guarded := guardedByFieldLoad(st.Block(), frControl, true); guarded && lessCall != nil && ifI != nil && an.InstrDominates(ifI, lessCall) {
+			// nothing else decides whether the store happens
+			only := true
+			for _, g := range an.GuardsOf(st.Block()) {
+				if g.If != ifI && !an.InstrDominates(g.If, ifI) {
+					only = false
+				}
+			}
+			if only {
+				okOr = true
+			}
+		}
+	}
 	c.Check(okOr, "ReadPacketUsing | pkt.Control |= fr.Control for every frame", c.P.Pos(fn.Pos()), "", "a control bit on a frame does not mark the packet as control (or only on some paths): unknown control packets would be treated as protocol errors")
 	// (b) the reset on a new id
 	nReset := 0
